@@ -644,6 +644,8 @@ done:
  *     T<hexseq>   such a notification with the last byte changed
  *     R<hexseq>   made-up response: A's outstanding token, claimed Partial IV, random ciphertext
  *     Z<hexseq>   made-up response with a token A never used
+ *     W<hexseq>   made-up response with A's outstanding token and no Partial IV (it is bound to
+ *                 the request's nonce; <hexseq> only varies the bytes)
  *   -> per op  <verdict>,<last_seq>,<window>,<initial>   verdict for requests as in rpd; for
  *      responses A = A's response handler ran, X = it did not
  */
@@ -816,19 +818,23 @@ static void cmd_rpx(void) {
           msg_len[i - 4] = n;
         }
       }
-    } else if (kind == 'R' || kind == 'Z') {
-      int pl = seq_len(seq);
+    } else if (kind == 'R' || kind == 'Z' || kind == 'W') {
+      int pl = kind == 'W' ? 0 : seq_len(seq);
       is_resp = 1;
       dg[n++] = 0x50 | (uint8_t)(kind == 'Z' ? 3 : tok_len);          /* NON */
       dg[n++] = COAP_RESPONSE_CODE(204);
       dg[n++] = 0x77; dg[n++] = (uint8_t)i;
       if (kind == 'Z') { dg[n++] = 0xee; dg[n++] = 0xee; dg[n++] = (uint8_t)i; }
       else { memcpy(dg + n, tok, tok_len); n += tok_len; }
-      dg[n++] = 0x90 | (uint8_t)(1 + pl);                /* option 9 (OSCORE) */
-      dg[n++] = (uint8_t)pl;
-      for (int k = 0; k < pl; k++) dg[n++] = (uint8_t)(seq >> (8 * (pl - 1 - k)));
+      if (kind == 'W') {
+        dg[n++] = 0x90;                                  /* empty OSCORE option */
+      } else {
+        dg[n++] = 0x90 | (uint8_t)(1 + pl);              /* option 9 (OSCORE) */
+        dg[n++] = (uint8_t)pl;
+        for (int k = 0; k < pl; k++) dg[n++] = (uint8_t)(seq >> (8 * (pl - 1 - k)));
+      }
       dg[n++] = 0xff;
-      for (int k = 0; k < 13; k++) dg[n++] = (uint8_t)(0xa0 + k + i);
+      for (int k = 0; k < 13; k++) dg[n++] = (uint8_t)(0xa0 + k + i + (int)seq);
     } else {
       printf("%sNOGEN", i > 4 ? " " : "");
       continue;
